@@ -304,6 +304,7 @@ func (x *runner) runSess(c sessCase) {
 	}
 	estTo, estFrom := local, remote
 	drift := false
+	emptyTo := false // an accepted header carried to=''
 	for k := 0; k < n && k < roundsRun; k++ {
 		if !accepted(k) {
 			break
@@ -316,6 +317,9 @@ func (x *runner) runSess(c sessCase) {
 		}
 		hTo, hFrom := jid.JID{}, jid.JID{}
 		for _, a := range t.Attrs {
+			if a.Space == "" && a.Local == "to" {
+				emptyTo = a.Val == ""
+			}
 			if a.Space == "" && a.Val != "" && (a.Local == "to" || a.Local == "from") {
 				j, perr := jid.Parse(a.Val)
 				if perr != nil {
@@ -348,7 +352,11 @@ func (x *runner) runSess(c sessCase) {
 		}
 	}
 	if s != nil && err == nil && !drift {
-		if !s.LocalAddr().Equal(estTo) || !s.RemoteAddr().Equal(estFrom) {
+		if !c.Recv && emptyTo && s.LocalAddr().Equal(jid.JID{}) && !estTo.Equal(jid.JID{}) && s.RemoteAddr().Equal(estFrom) {
+			// (negotiator.go tolerates the zero "to" that JID.UnmarshalXMLAttr makes
+			// of an empty attribute, and LocalAddr is that Info field)
+			x.res.Fail("C12/restart/init/empty-to-clears-local-address", fmt.Sprintf("after a header with to='' was accepted the session reports the local address %q, established was %q", s.LocalAddr(), estTo), c)
+		} else if !s.LocalAddr().Equal(estTo) || !s.RemoteAddr().Equal(estFrom) {
 			x.res.Fail("C12/restart/"+role+"/reported-address", fmt.Sprintf("session reports local=%q remote=%q, established were %q and %q", s.LocalAddr(), s.RemoteAddr(), estTo, estFrom), c)
 		}
 	}
